@@ -203,8 +203,20 @@ func (g *G) taxSet(specs []comboSpec, p Profile, feats map[string]bool, pit stri
 		if len(s.Ext) > 0 {
 			cb["ext"] = s.Ext
 			feats["ext-qualified"] = true
-		} else if p.TaxFocus && s.Rate == "" && g.chance(5) {
-			cb["ext"] = map[string]string{"verif-ext": g.pick("a", "b")}
+		} else if s.Rate == "" && ((p.TaxFocus && g.chance(4)) || g.chance(12)) {
+			// maps that are equal, different, disjoint or strict subsets of one another
+			switch g.rng.IntN(5) {
+			case 0:
+				cb["ext"] = map[string]string{"verif-ext": "a"}
+			case 1:
+				cb["ext"] = map[string]string{"verif-ext": "b"}
+			case 2:
+				cb["ext"] = map[string]string{"verif-ext": "a", "verif-two": "x"}
+			case 3:
+				cb["ext"] = map[string]string{"verif-two": "x"}
+			default:
+				cb["ext"] = map[string]string{"verif-ext": "a", "verif-two": "x", "verif-three": "y"}
+			}
 			feats["ext-qualified"] = true
 		}
 		if g.chance(12) && !s.Retained {
@@ -302,6 +314,8 @@ func (g *G) lineDCs(c int, p Profile, feats map[string]bool, charge bool) []any 
 			be := c
 			if !p.CurrencyOnly && g.chance(2) {
 				be = g.rng.IntN(6)
+			} else if c > 0 && g.chance(3) {
+				be = g.rng.IntN(c)
 			}
 			d["base"] = g.amount(maxFor(be, 2000), be, false)
 			feats["line-dc-percent-base"] = true
@@ -350,6 +364,8 @@ func (g *G) docDCs(c int, p Profile, specs []comboSpec, feats map[string]bool, p
 			be := c
 			if !p.CurrencyOnly && g.chance(2) {
 				be = g.rng.IntN(6)
+			} else if c > 0 && g.chance(3) {
+				be = g.rng.IntN(c) // a round base written with fewer decimals than the currency
 			}
 			d["base"] = g.amount(maxFor(be, 20000), be, false)
 			feats["doc-dc-percent-base"] = true
